@@ -122,6 +122,24 @@ def _mk_fp(op, a):
             r = None
         if r is not None and not (math.isinf(r) or math.isnan(r)):
             return const(r)
+    # sign symmetry of IEEE arithmetic under round-to-nearest-even (exact identities, NaN-preserving):
+    #   (-x)*(-y) = x*y, (-x)*y = -(x*y), (-x)/(-y) = x/y, (-x)/y = -(x/y), (-x)+(-y) = -(x+y), |-x| = |x|, -(-x) = x
+    if op in ('mul', 'div'):
+        n0, n1 = a[0].op == 'neg', a[1].op == 'neg'
+        if n0 and n1:
+            return _mk_fp(op, [a[0].a[0], a[1].a[0]])
+        if n0:
+            return _mk_fp('neg', [_mk_fp(op, [a[0].a[0], a[1]])])
+        if n1:
+            return _mk_fp('neg', [_mk_fp(op, [a[0], a[1].a[0]])])
+    if op == 'add' and a[0].op == 'neg' and a[1].op == 'neg':
+        return _mk_fp('neg', [_mk_fp('add', [a[0].a[0], a[1].a[0]])])
+    if op == 'abs' and a[0].op == 'neg':
+        return _mk_fp('abs', [a[0].a[0]])
+    if op == 'neg' and a[0].op == 'neg':
+        return a[0].a[0]
+    if op == 'sign' and a[0].op == 'neg':
+        return _mk_fp('neg', [_mk_fp('sign', [a[0].a[0]])])
     if op in ('add', 'mul') and a[0].id > a[1].id:
         a = [a[1], a[0]]
     if op == 'neg' and isc(a[0]) and a[0].v != 0:
